@@ -24,6 +24,7 @@ MODELS_C12 = [
     "m15_shutdown_vs_close_vs_grant",
     "m16_two_parking_writers_one_credit_vs_grant",
     "m17_two_parking_writers_one_credit_vs_close",
+    "m18_parked_writer_vs_local_shutdown",
 ]
 # Models whose unbounded DPOR search is expensive: preemption bounds per tier (None = unbounded).
 # Measured on the unchanged tree: m12 unbounded 4.1e5 interleavings / 18 s; m14 unbounded 1.2e7 / 410 s;
